@@ -406,7 +406,7 @@ func TestTwins(t *testing.T) {
 
 func TestPrograms(t *testing.T) {
 	pbt.Run(t, pbt.Sub[Case]{
-		Name: "programs", Quick: 100000, Thorough: 8000000,
+		Name: "programs", Quick: 100000, Thorough: 2400000,
 		Gen: func(t *rapid.T) Case {
 			flags := sgen.Flags(t, sgen.FlagPoolNonSig)
 			var p sgen.Program
